@@ -174,6 +174,12 @@ func (s *scanner) Next() (*hrpc.Result, error) {
 
 	select {
 	case <-s.rpc.Context().Done():
+		if s.closed && len(s.results) == 0 {
+			// the cancellation (or an earlier error) has been reported already
+			return nil, io.EOF
+		}
+		// the scan is over: report the cancellation once, io.EOF afterwards
+		s.results = nil
 		s.Close()
 		return nil, s.rpc.Context().Err()
 	default:
